@@ -208,6 +208,10 @@ class LossyDB(dict):
     def __getitem__(self, key):
         self.reads += 1
         if key in self.hidden:
+            hook = getattr(self, "on_miss", None)
+            if hook is not None:
+                self.on_miss = None
+                hook(key)  # a database that calls back into user code on a miss
             raise KeyError(key)
         return super().__getitem__(key)
 
